@@ -262,6 +262,8 @@ async fn exec_inner(t: Trace) -> Outcome {
     let mut wit_tok = 0u32;
     let mut wit_expect: Option<String> = None;
     let mut wit_dead = false;
+    let wit_frags = t.run_seed % 2 == 1;
+    let mut wit_frag_pending = false;
     let mut now;
     let mut tick_no: u64 = 0;
     loop {
@@ -279,6 +281,11 @@ async fn exec_inner(t: Trace) -> Outcome {
         }
         if viol.is_some() {
             break;
+        }
+        // (a fragment the witness left dangling one tick ago is completed before anything else is sent)
+        if wit_frag_pending {
+            w.apply(&Action::Send { c: wit, d: esc(b"NG :frag\r\n") }).await;
+            wit_frag_pending = false;
         }
         // witness: always answers at once, checks the PONG of its own PINGs
         for l in &obs[wit].lines {
@@ -321,6 +328,13 @@ async fn exec_inner(t: Trace) -> Outcome {
             };
             w.apply(&Action::line(wit, &line)).await;
             wit_expect = Some(tok);
+        }
+        // in half of the runs the witness's input is fragmented in time: the beginning of a line stays unfinished in
+        // the server's read buffer for a whole tick while replies, keep-alive PINGs and deadlines must go on as usual
+        if wit_frags && tick_no % 5 == 2 && !wit_dead {
+            w.apply(&Action::Send { c: wit, d: esc(b"PO") }).await;
+            wit_frag_pending = true;
+            out.count("witness_fragment_pending", 1);
         }
         // subjects
         for s in subs.iter_mut() {
